@@ -205,7 +205,12 @@ theorem C16_cache_coherent_step (w : World ℝ) (s : St ℝ) (o : Op ℝ) (h : C
       simp only []
       split
       · exact hm
-      · exact coherent_setConf' w _ c hm
+      · have hc := coherent_setConf' w _ c he
+        split
+        · rename_i s' heq
+          rw [heq] at hc
+          exact hc
+        · exact hc
   | useMean => exact he
   | useCustom v e =>
     simp only [step]
@@ -308,7 +313,7 @@ theorem C16_sim_changes_only (w : World ℝ) (s : St ℝ) (o : Op ℝ) (id : Nat
       simp only []
       split
       · simp [hs]
-      · split <;> simp [hs]
+      · by_cases hv : 1 < c ∨ c < 0 <;> simp [hv, hs]
   | useMean => simp [keepsSim, step, he, hs]
   | useCustom v e =>
     simp only [keepsSim, step, he]
@@ -323,6 +328,59 @@ theorem C16_sim_changes_only (w : World ℝ) (s : St ℝ) (o : Op ℝ) (id : Nat
   | samples => simp [keepsSim, step, he, hs]
   | recalc => simp [keepsSim, step, clear]
   | setGlobal g => simp [keepsSim, step, hs]
+
+/-- **C16 (a rejected request changes nothing).** When the library raises `ValueError` (negative
+    sample size, confidence outside [0, 1], inverted range, negative custom uncertainty, mode
+    strategy requested with an invalid confidence) the settings, the strategy, the stored
+    simulation and every cached result are exactly what they were once the `d.mc` access had made
+    sure a simulation exists — in particular the next read reports what it reported before. -/
+theorem C16_rejected_unchanged (w : World ℝ) (s : St ℝ) (o : Op ℝ)
+    (hr : (step w s o).2 = .rejected) : (step w s o).1 = ensure s := by
+  cases o with
+  | setSize k =>
+    simp only [step] at hr ⊢
+    split at hr
+    · simp [*]
+    · cases hr
+  | resetSize => simp [step] at hr
+  | setConf c =>
+    simp only [step, setConf'] at hr ⊢
+    by_cases hv : 1 < c ∨ c < 0
+    · simp [hv]
+    · simp [hv] at hr
+  | setRange r =>
+    cases r with
+    | none => simp [step] at hr
+    | some r =>
+      obtain ⟨lo, hi⟩ := r
+      simp only [step] at hr ⊢
+      split at hr
+      · simp [*]
+      · cases hr
+  | useMode c =>
+    cases c with
+    | none => simp [step] at hr
+    | some c =>
+      simp only [step, setConf'] at hr ⊢
+      by_cases hz : Num.isZero c = true
+      · simp [hz] at hr
+      · by_cases hv : 1 < c ∨ c < 0
+        · simp [hz, hv]
+        · simp [hz, hv] at hr
+  | useMean => simp [step] at hr
+  | useCustom v e =>
+    simp only [step] at hr ⊢
+    by_cases hv : e < 0
+    · simp [hv]
+    · simp [hv] at hr
+  | read =>
+    simp only [step, evaluate] at hr
+    generalize ensure s = t at hr
+    obtain ⟨size, strategy, conf, range, sim, next, cMean, cMode, cCustom, glob, log⟩ := t
+    cases strategy <;> cases cCustom <;> simp [evalCore] at hr
+  | samples => simp [step] at hr
+  | recalc => simp [step] at hr
+  | setGlobal g => simp [step] at hr
 
 /-- a dropped simulation is replaced by one with a NEW id -/
 theorem C16_new_sim_is_new (s : St ℝ) (hs : s.sim = none) :
